@@ -1164,8 +1164,15 @@ func (cd *CloneDetector) addPairWithLimit(pairs []*ClonePair, newPair *ClonePair
 // limitAndSortClonePairs ensures final results are sorted and limited
 func (cd *CloneDetector) limitAndSortClonePairs(maxPairs int) {
 	// Sort clone pairs by similarity (descending)
+	// (pairs of equal similarity are ordered by the location of their fragments)
 	sort.Slice(cd.clonePairs, func(i, j int) bool {
-		return cd.clonePairs[i].Similarity > cd.clonePairs[j].Similarity
+		if cd.clonePairs[i].Similarity != cd.clonePairs[j].Similarity {
+			return cd.clonePairs[i].Similarity > cd.clonePairs[j].Similarity
+		}
+		if cd.clonePairs[i].Fragment1 != cd.clonePairs[j].Fragment1 {
+			return fragmentLess(cd.clonePairs[i].Fragment1, cd.clonePairs[j].Fragment1)
+		}
+		return fragmentLess(cd.clonePairs[i].Fragment2, cd.clonePairs[j].Fragment2)
 	})
 
 	// Limit the number of pairs to prevent memory issues
